@@ -627,5 +627,17 @@ Definition md_of_classes (cl : list (string * mclass)) (f : field) : bool :=
   end.
 (* Statement.clone: the slices it copies (make+copy); Selects and Omits must be among the shared ones *)
 Definition tree_clone_copied : list string := ["Joins"%string; "scopes"%string].
+(* ... and the slices it must share (probed on the running gorm: a populated statement cloned through
+   Session + a chain step, compared by backing-array identity) *)
+Definition tree_clone_shared : list string :=
+  ["Clauses.FROM.Joins"%string; "Clauses.GROUPBY.Columns"%string; "Clauses.GROUPBY.Having"%string;
+   "Clauses.ORDERBY.Columns"%string; "Clauses.RETURNING.Columns"%string; "Clauses.WHERE.Exprs"%string;
+   "Omits"%string; "Selects"%string].
+(* Session options: does the child of a Session-style parent get a statement of its own (model: SCtx) or
+   share the parent's (model: SPlain)? *)
+Definition tree_session_clones : list (string * bool) :=
+  [("allowglobal"%string, false); ("batchsize"%string, false); ("ctx"%string, true); ("dryrun"%string, false);
+   ("fullsave"%string, false); ("nonested"%string, false); ("plain"%string, false); ("queryfields"%string, false);
+   ("skipdeftx"%string, false); ("skiphooks"%string, true)].
 (* chain methods append in place only onto these statement-owned slices *)
 Definition tree_self_appends : list string := ["Joins"%string; "Selects"%string; "scopes"%string].
